@@ -488,8 +488,9 @@ impl Server {
         for (conn_id, db) in self.blocking_manager.blocked_connections_in_order() {
             // What is this connection waiting for? (None: gone or no longer blocked)
             let waiting = self.connections.with_connection(conn_id, |conn| {
+                let gone = matches!(conn.state, ConnectionState::Blocked(_)) && conn.blocked_peer_closed();
                 match &conn.state {
-                    ConnectionState::Blocked(state) if !conn.peer_closed() => Some(state.clone()),
+                    ConnectionState::Blocked(state) if !gone => Some(state.clone()),
                     ConnectionState::Blocked(_) => {
                         // the peer went away while blocked: it must not be handed an element
                         conn.state = ConnectionState::Closing;
@@ -678,10 +679,14 @@ impl Server {
                 }
             }
             
+            // Requests that had to wait behind a blocking command come first
+            frames_to_process.extend(conn.deferred_frames.drain(..));
+            
             // Read data from connection
             match conn.read() {
-                Ok(true) => {
-                    // Data was read, try to parse all available frames with improved error handling
+                Ok(_) => {
+                    // Try to parse all available frames (also without new data: bytes that arrived
+                    // while the connection was blocked are already in the parser's buffer)
                     loop {
                         match conn.parse_frame() {
                             Ok(Some(frame)) => frames_to_process.push(frame),
@@ -711,9 +716,6 @@ impl Server {
                             }
                         }
                     }
-                }
-                Ok(false) => {
-                    // No data available (would block)
                 }
                 Err(e) => {
                     // Improved read error handling for pipelining
@@ -757,7 +759,18 @@ impl Server {
         // Second phase: process frames without the lock
         let mut responses = Vec::new();
         let mut needs_immediate_flush = false; // Track if any command needs immediate response
-        for frame in frames_to_process {
+        let mut frames_to_process = frames_to_process.into_iter();
+        while let Some(frame) = frames_to_process.next() {
+            // A blocking command of this batch is waiting: what follows it is neither carried out
+            // nor answered before it is (replies go out in request order)
+            if self.is_connection_blocked(id) {
+                self.connections.with_connection(id, |conn| {
+                    conn.deferred_frames.push_back(frame);
+                    conn.deferred_frames.extend(frames_to_process.by_ref());
+                });
+                break;
+            }
+            
             // Process each frame and increment command counter
             self.stats.total_commands_processed.fetch_add(1, Ordering::Relaxed);
             
